@@ -28,7 +28,7 @@ PROFILES = {
         "set_values": 8, "set_dtype": 6, "v_append": 5, "v_extend": 5, "v_insert": 4,
         "v_setitem": 4, "v_remove": 2, "set_card": 8, "set_attr": 3, "get_values": 1,
         "add_raising_rule": 1,
-    }, fault_share=0.6),
+    }, fault_share=0.6, wfilter_share=0.04),
 }
 MONITORS = [mon_atomic]
 
